@@ -185,6 +185,12 @@ class Sim:
             for m in self.on_event:
                 m(self, ev)
 
+    def note(self, ev):
+        """an event produced by the scheduler itself (delivery to a node / to a raw peer)"""
+        self.log.append(ev)
+        for m in self.on_event:
+            m(self, ev)
+
     def _on_wire(self, ev):
         idx = self.wire_index
         self.wire_index += 1
@@ -226,12 +232,11 @@ class Sim:
         if kind == "dgram":
             frm, to, data = payload
             if to in self.peers:
-                self.log.append({"e": "peer_rx", "t": self.now, "from": frm, "to": to,
-                                 "b": data.hex()})
+                self.note({"e": "peer_rx", "t": self.now, "from": frm, "to": to,
+                           "b": data.hex()})
                 self.peers[to](self, frm, to, data)
             else:
-                self.log.append({"e": "rx", "t": self.now, "from": frm, "to": to,
-                                 "b": data.hex()})
+                self.note({"e": "rx", "t": self.now, "from": frm, "to": to, "b": data.hex()})
                 self.cmd("deliver %s %s %s" % (frm, to, data.hex() or "-"))
         elif kind == "call":
             payload(self)
